@@ -32,6 +32,7 @@ type Clause struct {
 	E    *Expr
 	Src  string
 	Line int
+	Callee string // for "site" clauses
 }
 
 type SpecFn struct {
@@ -87,7 +88,7 @@ var clauseKeywords = map[string]bool{
 	"for": true, "end": true, "spec": true, "func": true, "lemma": true, "props": true,
 	"requires": true, "ensures": true, "panics_when": true, "errors_when": true, "modifies": true,
 	"loop": true, "decreases": true, "model": true, "trusted": true, "pure": true, "inline": true,
-	"nosafe": true, "atomic_panics": true, "unroll": true, "refines": true, "may_panic": true,
+	"nosafe": true, "atomic_panics": true, "site": true, "unroll": true, "refines": true, "may_panic": true,
 }
 
 // ParseContractFile reads the //@ lines of one file.
@@ -254,6 +255,25 @@ func ParseContractFile(path, pkg string, cf *ContractFile) error {
 					return fail(err)
 				}
 				c.Clauses = append(c.Clauses, &Clause{Kind: w, E: e, Src: rest, Line: s.line, Name: name})
+			case "site":
+				// site <callee> [@label] <expr>: extra obligation at every call of <callee>, in the callee's parameter names
+				k := strings.IndexAny(rest, " \t")
+				if k < 0 {
+					return fail(fmt.Errorf("site <callee> <expr>"))
+				}
+				callee := rest[:k]
+				body := strings.TrimSpace(rest[k:])
+				name := ""
+				if strings.HasPrefix(body, "@") {
+					j := strings.IndexAny(body, " \t")
+					name = body[1:j]
+					body = strings.TrimSpace(body[j:])
+				}
+				e, err := ParseExpr(body)
+				if err != nil {
+					return fail(err)
+				}
+				c.Clauses = append(c.Clauses, &Clause{Kind: "site", E: e, Src: body, Line: s.line, Name: name, Callee: callee})
 			case "modifies":
 				c.HasMod = true
 				if rest != "nothing" {
